@@ -172,12 +172,12 @@ def run(ck: Check) -> None:
     for v, tag in nonstring_inputs(rng):
         for name in HAS_CHECK + ["hex_signature"]:
             add(name, v, "kind-" + tag)
-    for _ in range(6 if ck.thorough else 2):
+    for _ in range(ck.n(6, 2)):
         for v, tag in entry_inputs(rng):
             for name in ["signature", "gpg_signature", "any_signature"]:
                 add(name, v, "entry-" + tag)
     # key lists
-    for _ in range(300 if ck.thorough else 80):
+    for _ in range(ck.n(300, 80)):
         n = rng.randint(0, 5)
         ks = [gen.key(rng.randrange(8)).hex for _ in range(n)]
         r = rng.random()
